@@ -170,6 +170,110 @@ def coq_bool(b):
     return "true" if b else "false"
 
 
+def fn_body(src, name):
+    for n, _params, b0, b1 in functions(src):
+        if n == name:
+            return src[b0:b1 - 1]
+    return None
+
+
+def depth_in(text, pos):
+    return text.count("{", 0, pos) - text.count("}", 0, pos)
+
+
+def replay_check_of(repo, notes):
+    """shape of ContinuityStreamCache::try_replay and ContinuityStore::replay_events:
+       first line seq 0 / successor seqs / empty refused / log fallback.  Anything not found in exactly the
+       expected shape is reported as false (never guessed)."""
+    res = {"first_zero": False, "successor": False, "empty_refused": False, "fallback_log": False}
+    ok = True
+    p = os.path.join(repo, "crates/ripd/src/continuity_stream_cache.rs")
+    if not os.path.exists(p):
+        notes.append("continuity_stream_cache.rs: file not found")
+        return res, False
+    src = blank_literals(strip_tests(strip_comments(open(p).read())))
+    body = fn_body(src, "try_replay")
+    if body is None:
+        notes.append("continuity_stream_cache.rs: fn try_replay not found")
+        return res, False
+    lm = re.search(r"\bfor\s+\w+\s+in\s+reader\s*\.\s*lines\s*\(\s*\)\s*\{", body)
+    if not lm:
+        notes.append("try_replay: no `for .. in reader.lines()` loop")
+        return res, False
+    l1 = brace_end(body, lm.end())
+    pre, loop, post = body[:lm.start()], body[lm.end():l1 - 1], body[l1:]
+    cm = re.search(r"\blet\s+mut\s+(\w+)\s*:\s*u64\s*=\s*0\s*;", pre)
+    if not cm:
+        notes.append("try_replay: no `let mut <counter>: u64 = 0;` before the loop (the first line is not held to seq 0)")
+    else:
+        v = re.escape(cm.group(1))
+        cmp_ = re.search(r"\bif\s+event\s*\.\s*seq\s*!=\s*" + v + r"\s*\{", loop)
+        incs = list(re.finditer(r"\b" + v + r"\s*(?:=\s*" + v + r"\s*\.\s*saturating_add\s*\(\s*1\s*\)|\+=\s*1)\s*;", loop))
+        assigns = list(re.finditer(r"\b" + v + r"\s*(?:[-+*/|&^]?=)(?!=)", loop))
+        if cmp_ and depth_in(loop, cmp_.start()) == 0 and "return Err" in loop[cmp_.end():brace_end(loop, cmp_.end())]:
+            res["first_zero"] = True
+            if len(incs) == 1 and len(assigns) == 1 and depth_in(loop, incs[0].start()) == 0 and incs[0].start() > cmp_.start():
+                res["successor"] = True
+            else:
+                notes.append(f"try_replay: the counter `{cm.group(1)}` is not advanced by exactly one unconditional `+1` after the comparison")
+        else:
+            notes.append(f"try_replay: no unconditional `if event.seq != {cm.group(1)} {{ return Err(..) }}` in the loop")
+    em = re.search(r"\bif\s+events\s*\.\s*is_empty\s*\(\s*\)\s*\{", post)
+    if em and depth_in(post, em.start()) == 0 and "return Err" in post[em.end():brace_end(post, em.end())]:
+        res["empty_refused"] = True
+    else:
+        notes.append("try_replay: no `if events.is_empty() { return Err(..) }` after the loop")
+    p2 = os.path.join(repo, "crates/ripd/src/continuities.rs")
+    src2 = blank_literals(strip_tests(strip_comments(open(p2).read()))) if os.path.exists(p2) else ""
+    b2 = fn_body(src2, "replay_events")
+    if b2 is None:
+        notes.append("continuities.rs: fn replay_events not found")
+        ok = False
+    else:
+        served = re.search(r"\bif\s+let\s+Ok\s*\(\s*Some\s*\(\s*(\w+)\s*\)\s*\)\s*=\s*self\s*\.\s*stream_cache\s*\.\s*try_replay\s*\(\s*continuity_id\s*\)\s*\{\s*return\s+Ok\s*\(\s*\1\s*\)\s*;\s*\}", b2)
+        fb = re.search(r"\bself\s*\.\s*event_log\s*\.\s*replay_stream\s*\(\s*StreamKind::Continuity\s*,\s*continuity_id\s*\)", b2)
+        if served and fb and fb.start() > served.end() and depth_in(b2, fb.start()) == 0:
+            res["fallback_log"] = True
+        else:
+            notes.append("replay_events: not `if let Ok(Some(x)) = self.stream_cache.try_replay(id) { return Ok(x); }` followed by `self.event_log.replay_stream(StreamKind::Continuity, id)`")
+    return res, ok
+
+
+def log_write_of(repo, notes):
+    """EventLog::append writes the line and flushes, unconditionally; the sidecar append flushes too"""
+    res = {"writes_line": False, "flush": False, "side_flush": False}
+    p = os.path.join(repo, "crates/rip-log/src/lib.rs")
+    if not os.path.exists(p):
+        notes.append("rip-log/src/lib.rs: file not found")
+        return res, False
+    src = blank_literals(strip_tests(strip_comments(open(p).read())))
+    body = fn_body(src, "append")
+    if body is None:
+        notes.append("rip-log: fn append not found")
+        return res, False
+    w = re.search(r"\bwriter\s*\.\s*write_all\s*\(", body)
+    if w and depth_in(body, w.start()) == 0:
+        res["writes_line"] = True
+    else:
+        notes.append("EventLog::append: no unconditional writer.write_all(..)")
+    fl = [m for m in re.finditer(r"\bwriter\s*\.\s*flush\s*\(\s*\)\s*\?\s*;", body)]
+    if w and any(depth_in(body, m.start()) == 0 and m.start() > w.start() for m in fl):
+        res["flush"] = True
+    else:
+        notes.append("EventLog::append: `writer.flush()?;` is missing or conditional (a frame handed to append is not on disk when append returns)")
+    p2 = os.path.join(repo, "crates/ripd/src/continuity_stream_cache.rs")
+    src2 = blank_literals(strip_tests(strip_comments(open(p2).read()))) if os.path.exists(p2) else ""
+    b2 = fn_body(src2, "append_best_effort")
+    if b2 is not None:
+        w2 = re.search(r"\bwriter\s*\.\s*write_all\s*\(", b2)
+        f2 = [m for m in re.finditer(r"\bwriter\s*\.\s*flush\s*\(\s*\)", b2)]
+        if w2 and any(depth_in(b2, m.start()) == 0 and m.start() > w2.start() for m in f2):
+            res["side_flush"] = True
+    if not res["side_flush"]:
+        notes.append("append_best_effort: no unconditional writer.flush() after the write")
+    return res, True
+
+
 def main():
     ap = argparse.ArgumentParser()
     ap.add_argument("--repo", required=True)
@@ -213,6 +317,27 @@ def main():
     lines.append("Proof. vm_compute. reflexivity. Qed.")
     lines.append("")
     lines.append(f"(* {len(sites)} emit sites *)")
+    rnotes = []
+    rc, rok = replay_check_of(a.repo, rnotes)
+    lw, lok = log_write_of(a.repo, rnotes)
+    lines.append("")
+    lines.append("(* shape of ContinuityStreamCache::try_replay / ContinuityStore::replay_events (the premise of c03_replay_after_cache_loss)")
+    lines.append("   and of the two append-to-disk steps (the premise under which Wire.emit's k_log / k_sidecar are what a fresh reader finds) *)")
+    for n in rnotes:
+        lines.append(f"(* note: {n} *)")
+    lines.append(f"Definition gen_ok_replay : bool := {coq_bool(rok)}.")
+    lines.append("Definition gen_replay_check : replay_check :=")
+    lines.append(f"  {{| rc_first_zero := {coq_bool(rc['first_zero'])}; rc_successor := {coq_bool(rc['successor'])}; "
+                 f"rc_empty_refused := {coq_bool(rc['empty_refused'])}; rc_fallback_log := {coq_bool(rc['fallback_log'])} |}}.")
+    lines.append("Lemma gen_replay_check_ok : gen_ok_replay && wf_replay_check gen_replay_check = true.")
+    lines.append("Proof. vm_compute. reflexivity. Qed.")
+    lines.append("")
+    lines.append(f"Definition gen_ok_log_write : bool := {coq_bool(lok)}.")
+    lines.append("Definition gen_log_write : log_write :=")
+    lines.append(f"  {{| lw_writes_line := {coq_bool(lw['writes_line'])}; lw_flush := {coq_bool(lw['flush'])}; lw_side_flush := {coq_bool(lw['side_flush'])} |}}.")
+    lines.append("Lemma gen_log_write_ok : gen_ok_log_write && wf_log_write gen_log_write = true.")
+    lines.append("Proof. vm_compute. reflexivity. Qed.")
+    notes = notes + rnotes
     os.makedirs(a.out, exist_ok=True)
     with open(os.path.join(a.out, "Sinks.v"), "w") as f:
         f.write("\n".join(lines) + "\n")
